@@ -66,7 +66,7 @@ def parse(fmt, text):
             blocks = re.findall(r">> Issue: \[", text)
             return {"records": [{} for _ in blocks], "skipped": None, "wellformed": True}
         if fmt == "custom":
-            lines = [l for l in text.splitlines() if l.strip()]
+            lines = [l for l in text.split("\n") if l.strip()]      # the formatter ends every record with "\n" and with nothing else
             return {"records": [{} for _ in lines], "skipped": None, "wellformed": True}
     except Exception as e:
         return {"records": None, "skipped": None, "wellformed": False, "error": "%s: %s" % (type(e).__name__, e)}
